@@ -736,3 +736,46 @@ fn main() {{}}
 U_FLOW = VUnit("c01_dataflow", ["C01", "C07", "C08", "C09", "C15"], "data-flow handlers: ret, store, store_fast, load_fast", build_flow)
 U_FLOW.assumes = ["Stack::register_variable_flags / register_variable_local / find_name_in_function are abstract callees (unit c07_stack covers the stack side)", "heap pointers abstract (moved_out)"]
 UNITS.append(U_FLOW)
+
+
+# =====================================================================================================================
+# C01 / C17: `assert`
+def build_assert(repo):
+    src = Source(repo)
+    log = []
+    names = ["pop", "stack_size"]
+    ctx = ctx_impl(src, log, names)
+    b = handler(src, log, "assert", [
+        Rule("R6", "ctx . pop ( ) . unwrap ( ) . move_out_of_heap_primitive ( ) ?", "move_out ( ctx . pop ( ) . unwrap ( ) ) ?", why="heap-pointer view abstract"),
+        Rule("R6", "item . equals ( & bool ! ( true ) ) ?", "equals_true ( & item ) ?", why="Primitive::equals against `true` (C05 / C12 obligations): true for Bool(true), false for Bool(false), an error for other kinds"),
+        Rule("R8", "let span = & args [ 0 ] ;", "let span = arg0 ( args ) ;", why="slice index with its panic precondition (R8)"),
+    ])
+    gen = header(log, f"{INSTR}: assert; {CTXF}: Ctx::pop, Ctx::stack_size") + prelude("ctx.rs") + ctx + f"""
+// Primitive::equals(x, true): the comparison itself is C05.eq / C12.equals; here only its outcome on a bool matters
+#[verifier::external_body] pub fn equals_true(p: &Primitive) -> (r: Result<bool, VErr>)
+    ensures *p is Bool ==> r == Ok::<bool, VErr>(p->Bool_0), !(*p is Bool) ==> (r is Err || r == Ok::<bool, VErr>(false)) {{ unimplemented!() }}
+pub fn arg0(a: &Vec<VString>) -> (r: &VString) requires a@.len() > 0 ensures *r == a@[0] {{ &a[0] }}
+
+//@ OBL C01.handler.assert
+// `assert e`: continues exactly when the VALUE of e is true (an element / field holding true counts); a false value stops the program
+// with an MScript error that carries the source position the compiler passed -- never a panic
+pub fn assert(ctx: &mut Ctx, args: &Vec<VString>) -> (r: Result<(), VErr>)
+    requires args@.len() >= 1            // the compiler always passes the position (Assertion::compile)
+    ensures
+        (old(ctx).stack@.len() == 1 && moved_out(old(ctx).stack@[0]) == Some(Primitive::Bool(true))) ==> r is Ok && final(ctx).stack@.len() == 0,
+        (old(ctx).stack@.len() == 1 && moved_out(old(ctx).stack@[0]) == Some(Primitive::Bool(false))) ==> r is Err,
+        r is Ok ==> old(ctx).stack@.len() == 1 && moved_out(old(ctx).stack@[0]) == Some(Primitive::Bool(true)),
+        rest(final(ctx)) == rest(old(ctx)),
+{{
+{render(b, 1)}
+}}
+}} // verus!
+fn main() {{}}
+"""
+    obls = ctx_obls(names, ["C01"]) + [Obl("C01.handler.assert", ["C01", "C17", "C02"], fn="assert", desc="assert: Ok exactly when the single operand's value is true (through element / field pointers); false is an MScript error; no panic")]
+    return gen, obls, log
+
+
+U_ASSERT = VUnit("c01_assert", ["C01", "C17", "C02"], "assert handler", build_assert)
+U_ASSERT.assumes = ["Primitive::equals against `true` is abstract (true / false on bools); heap pointers abstract"]
+UNITS.append(U_ASSERT)
